@@ -56,6 +56,9 @@ class BuiltinsMixin:
                 return B_ObjDict(o)
             if name == "__slots__" and o.cls.slots is not None:
                 return o.cls.slots
+            if name == "__slots__" and o.cls.attrs_fields is not None and o.cls.attrs_opts.get("slots", True):
+                # attrs.define(slots=True): one slot per field (+ __weakref__ when weakref_slot=True, the default)
+                return tuple(f.name for f in o.cls.attrs_fields) + (("__weakref__",) if o.cls.attrs_opts.get("weakref_slot", True) else ())
             ga, _ = o.cls.lookup("__getattr__")
             if ga is not None:
                 return self.call(self.bind(ga, o), [name], {})
